@@ -34,3 +34,7 @@ check("C08", "exploration", "Hypothesis (schema pair, value, unknown-record inse
       "Generated (newer message, deleted-field subset at top level and inside nested types, value) pairs are passed through an older reader/writer built with the public field API and read back with the newer schema and the reference; generated unknown records of all four wire types are interleaved at generated positions and must be re-emitted byte-for-byte without disturbing known fields.",
       "Older schemas are synthesised from the plugin-generated classes with the public field API; the reference decoder guards every interleaved encoding.",
       "DESIGN.md 3/C08")
+check("C06", "exploration", "exhaustive presence matrix + Hypothesis combinations vs presence model and reference HasField/WhichOneof",
+      "The finite matrix (every corpus field x {unset, default, non-default} x {constructor, setattr, parse, from_dict}) is enumerated completely against a presence model written from the statement and against the reference's HasField / WhichOneof on the same bytes; fresh messages and lazily created nested assignment are enumerated; combinations of presence-tracked fields decoded from reference bytes are sampled with Hypothesis.",
+      "Exhaustive over the matrix of the corpus schema, sampled for combinations; plain Timestamp/Duration fields are excluded from the presence-report clause.",
+      "DESIGN.md 3/C06")
